@@ -401,6 +401,11 @@ Definition mon_step (m : mon) (o : op) (prev cur : obs) : mon * list string :=
     (if is_tick && to Async && negb (negb csync && hmaj && async_ok_at (m_cfg m) (m_clk m)) then ["C19:async-without-cause"] else []) ++
     (* 2 async -> sync_recover only when both dcs have fewer failed stores than replicas *)
     (if is_tick && to SyncRecover && negb csync then ["C19:recover-while-a-dc-is-down"] else []) ++
+    (* a tick whose inputs send it to async (a dc lost its replicas, a majority is up, the timeout passed, not async yet) cannot end in sync *)
+    (* (a tick without any fault: when the switch to async itself fails to persist the state stays sync_recover and a finished scan leads on) *)
+    (if (match o with OTick f => match f_save f, f_alloc f with None, None => negb (f_rep f) | _, _ => false end | _ => false end)
+        && to Sync && negb csync && hmaj && async_ok_at (m_cfg m) (m_clk m) && negb (from Async)
+     then ["C19:sync-declared-in-a-tick-that-had-to-go-async"] else []) ++
     (if is_tick && to SyncRecover && negb (from Async) then ["C19:recover-not-from-async"] else []) ++
     (* 3 sync only after a full contiguous chain of regions with integrity under the current id *)
     (if is_tick && to Sync then
@@ -415,7 +420,12 @@ Definition mon_step (m : mon) (o : op) (prev cur : obs) : mon * list string :=
     (* 5 persisted and offered before served: a published status is in storage and was handed to the replicater *)
     (if changed then
        match cs with
-       | Some x => (if opt_eqb status_eqb (o_stored cur) (Some x) then [] else ["C19:served-status-not-persisted"]) ++
+       | Some x => (* storage holds the served status, or a later one (a later switch of the same operation whose save was applied but
+                      reported failed): exactly C19_persist_before_serve *)
+                   (match o_stored cur with
+                    | Some y => if status_eqb y x || (st_id x <? st_id y) then [] else ["C19:served-status-not-persisted"]
+                    | None => ["C19:served-status-not-persisted"]
+                    end) ++
                    (if existsb (status_eqb x) (o_files cur) then [] else ["C19:served-status-not-offered-to-members"])
        | None => []
        end
@@ -485,3 +495,30 @@ Fixpoint monitor_fails_from (n : nat) (cs : list case) : list (nat * string) :=
   | c :: r => (map (fun sg => (n, sg)) (monitor c) ++ monitor_fails_from (S n) r)%list
   end.
 Definition monitor_fails := monitor_fails_from 0.
+
+(* ---------- the Server-level entry point: Server.SetReplicationModeConfig on a real server with a faulty storage ----------
+   Observed around every call: the mode and label key the ModeManager runs with and the status it serves (HTTP status), the
+   persisted status, the replication-mode section served by the options and what a fresh reload of the config key gives.  No model
+   state is involved: "a failed call leaves served and persisted state unchanged", "an accepted change is what is reloaded". *)
+Record sobs := SObs {
+  so_mode : string; so_label : string; so_status : option status;   (* ModeManager: mode, label key, served status *)
+  so_stored : option status;                                         (* persisted replication status *)
+  so_cmode : string; so_clabel : string;                             (* served replication-mode section (mode, dr-auto-sync.label-key) *)
+  so_rmode : string; so_rlabel : string }.                           (* the same after a fresh reload of the config key *)
+(* a step: result, whether the config write / the status save of this call was applied-but-reported-failed, before, after *)
+Definition sstep := (res * bool * bool * sobs * sobs)%type.
+Definition scase := list sstep.
+Definition mon_sstep (st : sstep) : list string :=
+  let '(r, cfg_unknown, st_unknown, a, b) := st in
+  if res_eqb r ROk then
+    (if String.eqb (so_cmode b) (so_rmode b) && String.eqb (so_clabel b) (so_rlabel b) then [] else ["C19:accepted-mode-config-not-reloaded"])
+  else
+    ((if String.eqb (so_mode a) (so_mode b) && String.eqb (so_label a) (so_label b) && opt_eqb status_eqb (so_status a) (so_status b)
+      then [] else ["C19:failed-mode-config-change-altered-served-status"]) ++
+     (if st_unknown || opt_eqb status_eqb (so_stored a) (so_stored b) then [] else ["C19:failed-mode-config-change-altered-persisted-status"]) ++
+     (if String.eqb (so_cmode a) (so_cmode b) && String.eqb (so_clabel a) (so_clabel b) then [] else ["C19:failed-mode-config-change-altered-served-config"]) ++
+     (if cfg_unknown || (String.eqb (so_rmode a) (so_rmode b) && String.eqb (so_rlabel a) (so_rlabel b)) then []
+      else ["C19:failed-mode-config-change-altered-stored-config"]))%list.
+Definition monitor_s (c : scase) : list string := nodup string_dec (flat_map mon_sstep c).
+Definition monitor_s_fails (cs : list scase) : list (nat * string) :=
+  flat_map (fun ic : nat * scase => map (fun sg => (fst ic, sg)) (monitor_s (snd ic))) (number_from 0 cs).
